@@ -266,10 +266,17 @@ func runC17(outDir string, seed int64, tier string) {
 			qs = append(qs, q{start0, atomsList(in), ga("[]"), true, "recognise"})
 			qs = append(qs, q{start0, atomsList(in), gv(5), false, "remainder"})
 		}
-		for k := 0; k < 12; k++ {
+		for k := 0; k < 36; k++ {
 			in := inputs[rr.intn(len(inputs))]
 			rem := [][]string{{}, {"c"}, {"b"}, {"a", "b"}}[rr.intn(4)]
 			qs = append(qs, q{start0, atomsList(append(append([]string{}, in...), rem...)), atomsList(rem), false, "bound-remainder"})
+		}
+		for _, in := range inputs { // every suffix of the input as a bound remainder
+			if len(in) == 2 {
+				for k := 0; k <= len(in); k++ {
+					qs = append(qs, q{start0, atomsList(in), atomsList(in[k:]), false, "bound-remainder"})
+				}
+			}
 		}
 		qs = append(qs, q{start0, gv(6), ga("[]"), true, "generate"})
 		qs = append(qs, q{start0, glist([]*G{gv(6), gv(7)}, nil), ga("[]"), true, "generate"})
